@@ -188,6 +188,7 @@ struct State {
     int preempt = 0;
     std::string decisions;  // compact decision string (for diagnostics)
     uint32_t enum_budget = 0;
+    std::map<std::string, uint32_t> reach_seen, assert_cnt, assert_proved;  // per-path counters, merged into the totals when the path completes
     mutable int mru[2] = {-1, -1};
 };
 
@@ -416,7 +417,10 @@ struct Engine {
 
     // Decide a symbolic boolean; forks when both sides are feasible.  Returns the side this
     // state continues on.  `on_other` prepares the forked state (already copied) for the other side.
-    bool decide(State &S, const z3::expr &cond, const std::function<void(State &, bool)> &on_other) {
+    // Shard ownership hashes must be canonical: a function of the decisions taken (which side / which concrete
+    // value), never of which side the current model happened to pick - models differ between shard processes.
+    static uint64_t mix(uint64_t h, uint64_t v) { return (h ^ (v + 0x9e3779b97f4a7c15ULL)) * 1099511628211ULL; }
+    bool decide(State &S, const z3::expr &cond, const std::function<void(State &, bool)> &on_other, bool enumerating = false, uint64_t enum_value = 0) {
         auto kn = S.known.find(cond.id());
         if (kn != S.known.end()) return kn->second.second;
         bool mv = model_bool(S, cond);
@@ -429,13 +433,12 @@ struct Engine {
             Pending P{S};
             P.S.model = m2;
             add_constraint(P.S, other);
-            P.S.dhash = (P.S.dhash ^ 0x9e3779b97f4a7c15ULL) * 1099511628211ULL;
-            P.S.depth++;
+            if (!enumerating) { P.S.dhash = mix(P.S.dhash, mv ? 0 : 1); P.S.depth++; }  // an enumerating fork's other side picks its own value later
             P.S.decisions.push_back(mv ? '0' : '1');
             on_other(P.S, !mv);
             pending.push_back(std::move(P));
             add_constraint(S, mv ? cond : !cond);
-            S.dhash = (S.dhash ^ 0x2545F4914F6CDD1DULL) * 1099511628211ULL;
+            S.dhash = enumerating ? mix(S.dhash, 0x5bd1e995ULL + enum_value * 2654435761ULL) : mix(S.dhash, mv ? 1 : 0);
             S.depth++;
             S.decisions.push_back(mv ? '1' : '0');
             shard_gate(S);
@@ -475,7 +478,7 @@ struct Engine {
             Frame &f = O.th[O.cur].st.back();
             f.pc--;
             O.enum_budget++;
-        });
+        }, /*enumerating=*/true, (uint64_t)mv);
         if (!took) throw PathEnd{PathEnd::Error, "concretize: model value infeasible"};
         S.enum_budget = 0;
         return mv;
@@ -1251,13 +1254,13 @@ struct Engine {
             for (int i = n - 1; i >= 1; i--) {
                 forks++;
                 Pending P{S};
-                P.S.dhash = (P.S.dhash ^ (0x9e3779b97f4a7c15ULL + i)) * 1099511628211ULL;
+                P.S.dhash = mix(P.S.dhash, 0x1000 + (uint64_t)i);
                 P.S.depth++;
                 P.S.decisions.push_back((char)('a' + i));
                 apply(P.S, i);
                 pending.push_back(std::move(P));
             }
-            S.dhash = (S.dhash ^ 0x2545F4914F6CDD1DULL) * 1099511628211ULL;
+            S.dhash = mix(S.dhash, 0x1000);
             S.depth++;
             S.decisions.push_back('a');
         }
